@@ -110,6 +110,7 @@ type Exec struct {
 	preemptions int
 	threadWG  sync.WaitGroup
 	Switches  int
+	holes     []*smt.Term
 	TapeIn    []TapeEntry
 	tapePos   int
 	Merged    map[string]int
@@ -543,6 +544,7 @@ func (x *Exec) RunPath(fn *ssa.Function, prefix []int) (res *PathResult, forks [
 	x.pc = x.pc[:0]
 	x.sc = &scope{prefix: prefix}
 	x.tapePos = 0
+	x.holes = nil
 	x.preemptions = 0
 	x.mergeMark = nil
 	x.modelOK = false
